@@ -1,6 +1,8 @@
 """C02 -- see DESIGN.md section 4"""
 from vf import family
+from vf.family import T
 from vf.props import flow_common as fc
+from vf.props import sk_common as sk
 
 ID = 'C02'
 FUNCTIONS = ['yalafi.tex2txt.tex2txt', 'yalafi.parser.Parser.*', 'yalafi.mathparser.MathParser.*',
@@ -17,11 +19,60 @@ ASSUMPTIONS = ['event annotations of vf/docs.py (written from the property texts
                'scanner re-basing + stderr stub as for C01']
 
 
+A, B = T('Alpha'), T('Beta')
+
+
+def sketches(tier):
+    """holes around / inside position-sensitive constructs: the word after the construct
+    must map to its own offset for every hole content"""
+    Ls = 3 if tier == 'quick' else 4
+    Lw = 2 if tier == 'quick' else 3
+    S = [
+        # a line that vanishes (label, index, unknown env, definition), any blanks around it
+        ('after_label', ['cat', A, '\n', ['label'], '@H@', B], 'SPACE', Ls, True),
+        ('before_label', ['cat', A, '@H@', ['label'], '\n', B], 'SPACE', Ls, True),
+        ('after_index2', ['cat', A, '\n', ['label'], '\n', ['index'], '@H@', B], 'SPACE', Ls, True),
+        ('after_beginenv', ['cat', A, '\n', ['unknown_env', 'zzenv', ['cat', '@H@', B, '\n']], '\n', A],
+         'SPACE', Ls, True),
+        ('after_endenv', ['cat', A, '\n', ['unknown_env', 'zzenv', ['cat', '\n', B, '\n']], '@H@', A],
+         'SPACE', Ls, True),
+        ('after_defn', ['cat', A, '\n', ['defnode', family.ZERO], '@H@', B], 'SPACE', Ls, True),
+        ('after_item', ['cat', A, '\n', ['items', 'itemize', [[None, ['cat', '@H@', B]]]]], 'SPACE', Ls, True),
+        ('after_unknown0', ['cat', A, ' ', ['unknown', 'zzbar'], '@H@', B], 'SPACE', Ls, True),
+        ('macro_gap', ['cat', A, ' ', ['unknown', 'zzfoo', B, {'gap': '@H@'}], ' ', B], 'SPACE', 2, True),
+        ('heading_gap', ['cat', ['heading', A, 'section', '', None, False, '@H@'], '\n', B], 'SPACE', 2, True),
+        ('passthru_gap', ['cat', A, ' ', ['passthru', 'textcolor', B, '{red}', '@H@'], ' ', A], 'SPACE', 2, True),
+        # the scanner looks ahead here: symbolic scan of the whole text
+        ('verbatim_gap', ['cat', A, ' ', ['verbatim', 'x y', '@H@'], ' ', B], 'SPACE', 2, (6, 27)),
+        ('verbatim_head', ['cat', A, '\n', ['verbatim', '@H@code x\n'], '\n', B], 'SPACE', 3, (16, 22)),
+        ('after_comment', ['cat', A, ' ', ['comment', 'c'], '@H@', B], 'SPACE', 2, (3, 1)),
+        ('comment_text', ['cat', A, ' ', ['comment', '@H@'], B], 'COMMENT', 2, (1, 2)),
+        ('verb_text', ['cat', A, ' ', ['verb', 'x@H@y', '+'], ' ', B], 'WORD', 2, (7, 3)),
+        # words of any letters in nested / detached / maths-text slots
+        ('word_nested', ['cat', A, ' ', ['unknown', 'textbf', ['unknown', 'emph', T('@H@')]], ' ', B],
+         'WORD', Lw, True),
+        ('word_footnote', ['cat', A, ['footnote', T('x@H@')], ' ', B], 'WORD', Lw, True),
+        ('word_macroarg', ['cat', ['defnode', family.FOO], A, ' ', ['call', family.FOO, T('@H@'), B], ' ', A],
+         'WORD', Lw, True),
+        ('word_heading', ['cat', ['heading', T('x@H@')], '\n', B], 'WORD', Lw, True),
+        ('word_item', ['cat', ['items', 'itemize', [[T('@H@'), B]]], ' ', A], 'WORD', Lw, True),
+    ]
+    out = [sk.item('sk:' + n, ['cat', family.PREAMBLE, sp], c, L, 'C02', cost=5,
+                   lmin=1 if n == 'after_unknown0' else 0,
+                   win=spl if isinstance(spl, tuple) else None) for n, sp, c, L, spl in S]
+    out.append(sk.item('sk:twin', ['cat', A, '@H@', B], 'SPACE', 1, 'C02', twin=True))
+    return out
+
+
 def items(tier, seed):
     tw = {'h': 'fam', 'name': 'twin', 'spec': family.doc(family.ATOMS[0]), 'tag': 'C02',
           'twin': True}
-    return fc.items(tier, seed, 'C02', [tw])
+    return fc.items(tier, seed, 'C02', [tw]) + sketches(tier)
 
 
-run_item = fc.run_item
-replay = fc.replay
+def run_item(item):
+    return (sk if item['h'] == 'sk' else fc).run_item(item)
+
+
+def replay(rep):
+    return (sk if rep['item']['h'] == 'sk' else fc).replay(rep)
